@@ -12,6 +12,7 @@ import re
 import struct
 import subprocess
 import warnings
+import zlib
 import xml.etree.ElementTree as ET
 
 import numpy as np
@@ -344,6 +345,16 @@ def read(data):
     try:
         with warnings.catch_warnings():
             warnings.simplefilter("ignore")
+            if zlib.crc32(data if isinstance(data, bytes) else str(data).encode()) % 3 == 0:
+                # the document was read before in this process and what was read then was edited (a 2018b solution
+                # upgraded, a map renamed): what is read now is the document again
+                try:
+                    first = sol.CommonRoadSolutionReader.fromstring(data)
+                    first.scenario_id.scenario_version = "2018b" if first.scenario_id.scenario_version != "2018b" else "2020a"
+                    first.scenario_id.map_name = "Edited"
+                    first.computation_time = 123.5
+                except Exception:  # noqa - the first reading is not what is judged
+                    pass
             return ("ok", sol.CommonRoadSolutionReader.fromstring(data))
     except Exception as e:  # noqa  (any exception of the reader is an observation)
         return ("exc", type(e).__name__ + ": " + str(e)[:80])
